@@ -814,6 +814,16 @@ class List(list, base.Symbolic, pg_typing.CustomTyping):
       if self._allow_partial == allow_partial:
         proceed_with_standard_apply = False
       else:
+        if not allow_partial and self.is_partial:
+          # Adopt the stricter mode only for a value that satisfies it:
+          # otherwise a rejected assignment would pass when retried.
+          raise ValueError(
+              utils.message_on_path(
+                  f'List (spec={self._value_spec!r}) is partial and cannot be '
+                  f'assigned to a field that requires a complete value.',
+                  path,
+              )
+          )
         self._allow_partial = allow_partial
     elif isinstance(value_spec, pg_typing.List):
       self._value_spec = value_spec
